@@ -191,10 +191,16 @@ def classify(route, kinds, tokens, detail):
                 K, ("write-exc:RepresenterError", "write-exc:TypeError"),
                 ("write-exc",)):
             return "datetimelike-values-inside-list-statistic-not-converted"
-        if "ts-tz" in ac and _kinds_ok(
+        default_dt = {f"{place}.dtype:datetime64[ns]",
+                      f"{place}.dtype:timedelta64[ns]"}
+        if place != "frame" and ac & {"ts-second", "ts-subsecond", "ts-tz",
+                                     "td"} and not (default_dt & set(T)) \
+                and _kinds_ok(
                 K, ("write-exc:RepresenterError", "write-exc:TypeError"),
                 ("write-exc",)):
-            return "tz-aware-datetime-statistic-not-converted"
+            # handle_stat_dtype compares the column dtype with the *default*
+            # DateTime()/Timedelta(): tz-aware or other-unit columns miss it
+            return "statistic-conversion-requires-default-DateTime-or-Timedelta-dtype"
         if place == "frame" and ac & {"ts-second", "ts-subsecond", "ts-tz",
                                      "td"} and _kinds_ok(
                 K, ("write-exc:RepresenterError", "write-exc:TypeError"),
